@@ -110,8 +110,13 @@ class SuperNet(DNAS):
         """
         model = self.seed
         seed_training = self.seed.training
+        # the conversion runs a forward pass of the seed in eval mode, which re-samples the
+        # coefficients stored by every combiner: put back the ones the search was using
+        thetas = [(m, m.theta_alpha) for m in self.seed.modules() if hasattr(m, 'theta_alpha')]
         model, _, _ = convert(model, self._input_example, 'export')
         self.seed.train(seed_training)
+        for m, t in thetas:
+            m.theta_alpha = t
         return model
 
     def summary(self) -> Dict[str, Dict[str, Any]]:
